@@ -5,10 +5,11 @@ from .. import core, values
 
 ID = 'C15'
 LEVEL = 'exploration'
-RULE = ('case = history of operations on a fresh class lattice per case (chain A<-B<-C, diamond D(B, B2), unrelated U; '
+RULE = ('case = history of operations on a fresh class lattice per case (chain A<-B<-C, D(B, B2) with an unrelated second base, '
+        'E(A) and the true diamond F(B, E), unrelated U; '
         'unique module names): register by class, register by qualified-name string, register predicate accepting a '
         'subset of the classes, print an instance, is_registered with each of the 6 legal flag combinations and the '
-        'illegal one. Exhaustive: all histories of length <= 3 over a reduced alphabet (classes A, B, D; ~40 ops); '
+        'illegal one. Exhaustive: all histories of length <= 3 over two reduced alphabets (classes A, B, D and A, E, F; 27 ops each); '
         'random: Hypothesis lists of up to 14 ops over the full lattice. Oracle: executable model - the printer used is '
         'the latest one registered (by class or by name, equivalent) for the nearest class in the MRO, else the '
         'first-registered accepting predicate, else repr (every test printer returns a unique tag); is_registered is '
@@ -20,7 +21,7 @@ ASSUMPTIONS = ['is_registered(check_deferred=False) may answer either way for a 
                'the predicate registry is trimmed back to its initial length between histories (getattr-guarded)']
 BUDGET = {'quick': {'random': 12000, 'shards': 16}, 'thorough': {'random': 300000, 'shards': 64}}
 
-NAMES = ['A', 'B', 'C', 'B2', 'D', 'U']
+NAMES = ['A', 'B', 'C', 'B2', 'D', 'U', 'E', 'F']
 FLAGS = [(cs, cd, rd) for cs in (False, True) for cd in (False, True) for rd in (False, True)]
 _uid = itertools.count()
 
@@ -40,11 +41,17 @@ def lattice():
     B2 = mk('B2', ())
     D = mk('D', (B, B2))
     U = mk('U', ())
-    return mod, dict(A=A, B=B, C=C, B2=B2, D=D, U=U)
+    E = mk('E', (A,))
+    F = mk('F', (B, E))          # a true diamond: MRO F, B, E, A
+    return mod, dict(A=A, B=B, C=C, B2=B2, D=D, U=U, E=E, F=F)
 
 
 def enumerate_cases(tier):
-    names = ['A', 'B', 'D']
+    for names in (['A', 'B', 'D'], ['A', 'E', 'F']):
+        yield from _enumerate(tier, names)
+
+
+def _enumerate(tier, names):
     ops = []
     for n in names:
         ops.append(['regc', n])
@@ -52,8 +59,8 @@ def enumerate_cases(tier):
         ops.append(['print', n])
         for fl in [(True, True, True), (True, True, False), (False, False, False), (False, True, True), (True, False, False)]:
             ops.append(['isreg', n] + list(fl))
-    ops.append(['regp', ['A', 'D']])
-    ops.append(['regp', ['B']])
+    ops.append(['regp', [names[0], names[2]]])
+    ops.append(['regp', [names[1]]])
     ops.append(['print', 'C'])
     maxlen = 3 if tier == 'quick' else 4
     for ln in range(1, maxlen + 1):
